@@ -21,7 +21,15 @@ static Str tok_case(uint64_t idx) {
     std::vector<const char*> v(l); for (size_t i = 0; i < l; i++) { v[l - 1 - i] = TOKENS[idx % NTOK]; idx /= NTOK; }
     Str s; for (auto t : v) s += t; return s;
 }
-static uint64_t ncases(Ctx& c) { return nenum(c) + ntok(c) + (uint64_t)c.param_int("random", c.tier == "thorough" ? 5000000 : 150000); }
+// every character value alone / between letters / doubled, and every triplet %HH in the four hex-case spellings alone and followed by text
+static uint64_t nchars() { return 255 * 3 + 256 * 4 * 2; }
+static Str char_case(uint64_t i) {
+    if (i < 255 * 3) { unsigned b = 1 + (unsigned)(i % 255); Str x; switch (i / 255) { case 0: x.push_back((char)b); break; case 1: x = "a"; x.push_back((char)b); x += "Z"; break; default: x.push_back((char)b); x.push_back((char)b); } return x; }
+    i -= 255 * 3; unsigned b = (unsigned)(i % 256); i /= 256; unsigned v = (unsigned)(i % 4); bool tail = i / 4;
+    static const char* HU = "0123456789ABCDEF"; static const char* HL = "0123456789abcdef";
+    Str x = "%"; x.push_back((v & 1 ? HL : HU)[b >> 4]); x.push_back((v & 2 ? HL : HU)[b & 15]); if (tail) x = "q" + x + "%4"; return x;
+}
+static uint64_t ncases(Ctx& c) { return nchars() + nenum(c) + ntok(c) + (uint64_t)c.param_int("random", c.tier == "thorough" ? 5000000 : 150000); }
 
 template <class X> struct Esc {
     typedef typename X::Char Char;
@@ -104,12 +112,14 @@ template <class X> struct Esc {
 static Esc<ApiA>* eA; static Esc<ApiW>* eW;
 static void run_case(Ctx& c, uint64_t idx) {
     if (!eA) { eA = new Esc<ApiA>(); eW = new Esc<ApiW>(); }
-    Str s; uint64_t ne = nenum(c);
-    if (idx < ne) s = genum_case(idx, Str(ENUM_ALPHA, 13), 6);
+    Str s; uint64_t ne = nenum(c), nc = nchars();
+    if (idx < nc) { s = char_case(idx); c.count("gen_charset"); }
+    else if ((idx -= nc) < ne) s = genum_case(idx, Str(ENUM_ALPHA, 13), 6);
     else if (idx < ne + ntok(c)) s = tok_case(idx - ne);
     else s = gen_string(c.rng, c.rng.chance(1, 30) ? 400 : 24);
     c.note("escape \"" + esc(s.substr(0, 200)) + "\"");
     c.distinct(hash_str(s));
+    if (c.case_index < nc) { eA->escape_checks(c, s); eA->unescape_checks(c, s); eW->escape_checks(c, s); eW->unescape_checks(c, s); return; }
     if (idx % 2 == 0) { eA->escape_checks(c, s); eA->unescape_checks(c, s); } else { eW->escape_checks(c, s); eW->unescape_checks(c, s); }
     if (idx % 10 == 0) { eW->unescape_checks(c, s); eA->escape_checks(c, s); }
     if (idx % 9000 == 2) c.sample("string", esc(s));
